@@ -450,6 +450,7 @@ fn history(ctx: &Ctx, shard: usize, r: &mut Rng, first: bool) {
         ctx.stat("iterations", e.steps as i64);
         if c.once != NONE && c.once < e.steps { ctx.stat("mcr_clear_hit", 1); }
         // ---- direct oracle: same stop, same number of steps, same state as repeated step_in
+        let mut diverged = true;
         if out != e.out || class != e.class || polls != e.steps {
             ctx.fail("C13", "stop_differs_from_steps", format!("{} on '{}' program: call gave {:?} class {} after {} steps; single steps reach the documented stop ({}) as {:?} class {} after {} steps",
                      kind_name(&c.kind), p.shape, out, class, polls, e.why, e.out, e.class, e.steps), replay());
@@ -459,12 +460,13 @@ fn history(ctx: &Ctx, shard: usize, r: &mut Rng, first: bool) {
                 ctx.fail("C13", "state_differs_from_steps", format!("{} on '{}' program, {} steps: state after the call {} differs from state after single steps {}", kind_name(&c.kind), p.shape, polls, a, bt), replay());
             } else if let Some(x) = same_memory(&m, &t) {
                 ctx.fail("C13", "state_differs_from_steps", format!("{} on '{}' program, {} steps: memory at {x:#06x} differs from single steps", kind_name(&c.kind), p.shape, polls), replay());
-            }
-        }
+            } else { diverged = false; }
+        } else { diverged = false; }
         let obs = m.observe(&out);
         results.push(L(vec![i(class), I(polls as i128), obs]));
         prev_class = class;
         if out == Outcome::Panic { ctx.stat("panic", 1); break; }
+        if diverged { break; } // the two machines are no longer comparable
     }
     let inp = L(vec![state, L(calls)]);
     let outp = L(vec![L(results), m.mem_diff()]);
@@ -520,13 +522,13 @@ fn split(ctx: &Ctx, r: &mut Rng) {
 fn build_with(st: &Setup) -> Machine { let mut m = build(st); attach(&mut m); m }
 
 pub fn run(ctx: &Ctx, _replay: Option<&str>) {
-    let runs = ctx.n(2500, 40_000) as usize;
+    let runs = ctx.n(6000, 70_000) as usize;
     let root = Rng::new(ctx.seed ^ 0xC13);
     par_for(runs, |k| {
         let mut r = root.fork(k as u64 + 1);
         history(ctx, k, &mut r, k < 2);
     });
-    let splits = ctx.n(1500, 25_000) as usize;
+    let splits = ctx.n(4000, 40_000) as usize;
     let root2 = Rng::new(ctx.seed ^ 0xC13_5);
     par_for(splits, |k| {
         let mut r = root2.fork(k as u64 + 1);
